@@ -19,7 +19,23 @@ import traceback
 
 
 # ---------------------------------------------------------------- JSON codec
+class Rec:
+    """a plain record standing in for an expression object when a *fragment* that only reads attributes is run
+    concretely: attribute access for the real code, .get(name) for the contract text (as ObjV offers symbolically)"""
+
+    def __init__(self, **kw):
+        self.__dict__.update(kw)
+
+    def get(self, k):
+        return getattr(self, k)
+
+    def __repr__(self):
+        return f"Rec({self.__dict__!r})"
+
+
 def enc(v):
+    if type(v).__name__ == "Rec" and hasattr(v, "get"):  # by name: this module may be loaded both as __main__ and as pyvc.concrete
+        return {"__rec__": [[k, enc(x)] for k, x in v.__dict__.items()]}
     if isinstance(v, slice):
         return {"__slice__": [enc(v.start), enc(v.stop), enc(v.step)]}
     if isinstance(v, tuple):
@@ -32,6 +48,8 @@ def enc(v):
         return {"__nan__": 1}
     if isinstance(v, (bool, int, float, str)) or v is None:
         return v
+    if type(v).__name__ == "_NS":
+        return {"__locals__": [[k, enc(x)] for k, x in v.__dict__.items() if not k.startswith("_") and k != "self"]}
     if type(v).__module__ == "numpy" and hasattr(v, "item") and getattr(v, "shape", None) == ():
         return enc(v.item())
     if type(v).__module__ == "numpy" and hasattr(v, "tolist"):
@@ -49,6 +67,8 @@ def dec(v):
             return {dec(k): dec(x) for k, x in v["__dict__"]}
         if "__nan__" in v:
             return math.nan
+        if "__rec__" in v:
+            return Rec(**{k: dec(x) for k, x in v["__rec__"]})
         if "__ndarray__" in v:
             import numpy as np
             return np.array(dec(v["__ndarray__"]))
